@@ -184,6 +184,8 @@ pub enum Op {
     Matched { kind: String, id: u32 },
     MatchedData { kind: String, id: u32, #[serde(default)] peer_kind: String, peer: u32 },
     Discovered { p: u32 },
+    /// daemon: poll get_discovered_participants every `period_us`, logging every change of the set
+    WatchDiscovered { p: u32, period_us: u64 },
     Ignore { p: u32, what: String, target_kind: String, target: u32 },
     // ---- conditions / waitsets
     SetEnabledStatuses { kind: String, id: u32, mask: Vec<u8> },
